@@ -71,6 +71,11 @@ def generate(tier, rng):
         s = rng.randrange(0, 0x4310)
         e = min(0x4320, s + rng.choice([0, 1, 2, 3, 16, 255, 256, 257, 4096, rng.randrange(0, 0x4300)]))
         pairs.append((s, e))
+    # far too long: a whole ROM image / picodata / 64 KiB handed over at once (a write passing 0x4300 is rejected whatever
+    # its length and start)
+    for s0, n in ((0, 0x8000), (0, 32800), (0, 0x10000), (0x100, 0x8000), (0x4300, 0x8000), (0, 0x4301), (1, 0x4300),
+                  (0x42ff, 0x8000), (0x3200, 0x8000)):
+        pairs.append((s0, s0 + n))
     rng.shuffle(pairs)
     # group into histories of 1..5 writes sharing one initial memory
     i = 0
@@ -114,6 +119,7 @@ def corpus_cases():
     yield {'mem': z, 'writes': [[0x42ff, '09']]}
     yield {'mem': z, 'writes': [[0x0, '05' * 0x4300]]}
     yield {'mem': z, 'writes': [[0x1ff8, '07' * 16], [0x2ffe, '0102'], [0x4300, '-']]}
+    yield {'mem': z, 'writes': [[0x0, '5a' * 0x8000], [0x10, '0102'], [0x0, '3c' * 32800]]}
     # a section object replaced between two writes (seed s4b_C18: a memory map cached at the first write)
     yield {'mem': z, 'writes': [[0x3200, '0102'], [0x3204, '0304']], 'rebind': [[1, 4]]}
     ff = [lib.hx(b'\xff' * n) for n in SIZES]
